@@ -649,6 +649,15 @@ End Names.
 Definition iface_names (priv emb : bool) := iface_names_gen priv emb true.
 Definition iface_names_orig (priv emb : bool) := iface_names_gen priv emb false.
 
+(* the declaration Go selects for an own or promoted method name: the first embedding level
+   that declares it (when go_ms holds it is the only one at that level) *)
+Fixpoint find_level (fuel : nat) (lvl : list tree) (n : string) : option meth :=
+  match flat_map (fun t => filter (fun m => String.eqb (m_name m) n) (t_own t)) lvl with
+  | m :: _ => Some m
+  | [] => match fuel with O => None | S f => find_level f (flat_map t_emb lvl) n end
+  end.
+Definition find_decl (t : tree) (n : string) : option meth := find_level (height t) [t] n.
+
 (* ---- specification of the method set, in the property's words, for judging observations:
    own visible methods, plus (IncludeEmbedded) the visible promoted ones — in Go's method set,
    not defined by the type itself, and defined under at most one embedded field ---- *)
